@@ -3,11 +3,12 @@
 package vm
 
 import (
+	"context"
 	"reflect"
 )
 
 // convertMap trys to covert the reflect.Value map to the map reflect.Type
-func convertMap(rv reflect.Value, rt reflect.Type) (reflect.Value, error) {
+func convertMap(ctx context.Context, rv reflect.Value, rt reflect.Type) (reflect.Value, error) {
 	rtKey := rt.Key()
 	rtElem := rt.Elem()
 
@@ -22,11 +23,11 @@ func convertMap(rv reflect.Value, rt reflect.Type) (reflect.Value, error) {
 	mapIter := rv.MapRange()
 	var value reflect.Value
 	for mapIter.Next() {
-		newKey, err := convertReflectValueToType(mapIter.Key(), rtKey)
+		newKey, err := convertReflectValueToTypeContext(ctx, mapIter.Key(), rtKey)
 		if err != nil {
 			return rv, err
 		}
-		value, err = convertReflectValueToType(mapIter.Value(), rtElem)
+		value, err = convertReflectValueToTypeContext(ctx, mapIter.Value(), rtElem)
 		if err != nil {
 			return rv, err
 		}
